@@ -18,6 +18,7 @@ import numpy as np
 from ..kit import cnat, cnatl, cq, cz, clist, cbool
 
 HDR = ("From Coq Require Import List ZArith QArith.\n"
+       "From NV.Generated Require Import ClusteringFrags.\n"
        "From NV.C14 Require Import Model ModelH.\n")
 
 
@@ -74,7 +75,7 @@ def kmeans_cases(ck):
                 for lab in itertools.product(range(k), repeat=n):
                     if ck.thorough() or n <= 2 or (n == 3 and sum(lab) % 2 == 0) or (sum(xs) * 7 + sum(lab) * 3 + k) % 23 == 0:
                         groups.append((np.array(xs).reshape(n, 1), k, list(lab), F(1, 10000)))
-    N = ck.n(80, 1500)
+    N = ck.n(140, 2400)
     for t in range(N):
         n = int(rng.integers(2, 9 if t % 5 else 13))
         p = int(rng.integers(1, 6))
@@ -102,6 +103,10 @@ def kmeans_section(ck):
     zt, _ = U._EStep(fa([[0]]), fa([[1], [-1]]))
     strict = int(zt[0]) == 0
     st = cbool(strict)
+    gen = (ck.build.generated or {}).get("ClusteringFrags.v", {}) if ck.build is not None else {}
+    if "estep_strict" in gen and bool(gen["estep_strict"]) != strict:
+        ck.fail("estep/tie-rule/source-vs-runtime", "the comparison translated from _EStep's source (%s) and the tie rule measured on the "
+                "running code (%s) differ" % ("<" if gen["estep_strict"] else "<=", "<" if strict else "<="), {"translated": gen})
     ck.section("kmeans", tie_rule="first closest centre wins (`<`)" if strict else "last closest centre wins (`<=`)")
     terms, meta = [], []
 
@@ -207,7 +212,7 @@ def kmeans_section(ck):
                         ("kmeans-wrapper", r3, None))
     # ---- _EStep / voronoi with arbitrary rational centres (not means), ties included
     rng = ck.rng("estep")
-    for t in range(ck.n(100, 1200)):
+    for t in range(ck.n(150, 2000)):
         n = int(rng.integers(1, 8))
         p = int(rng.integers(1, 6))
         k = int(rng.integers(1, 6))
@@ -234,7 +239,7 @@ def kmeans_section(ck):
                 ck.fail("voronoi/not-closest-centre/%s" % ("tie" if dists.count(min(dists)) > 1 else "unique"),
                         "item %d labelled %d, distances %s" % (i, zl[i], dists), rep)
                 break
-        if F(J) != wcss(Xl, zl, Cl):
+        if all(0 <= v < k for v in zl) and F(J) != wcss(Xl, zl, Cl):
             ck.fail("estep/J-not-inertia", "J=%s but inertia is %s" % (J, wcss(Xl, zl, Cl)), rep)
         add("estep_agrees %s %s %s %s %s %s" % (st, cnat(p), cmat(Xl), cmat(Cl), cnatl(zl), cq(F(J))), ("estep", rep, None))
     # 1-d inputs go through voronoi's reshape
@@ -326,7 +331,7 @@ def graph_cases(ck):
         for mask in range(1 << len(pairs)):
             E = [pairs[b] for b in range(len(pairs)) if mask >> b & 1]
             nf = 2 if (n < nmax or ck.thorough()) else 1
-            if n == 5 and mask % 3:
+            if n == 5 and mask % 3 and not ck.thorough():
                 nf = 1
             for r in range(nf):
                 p = 1 + (mask + r) % 2
@@ -337,7 +342,7 @@ def graph_cases(ck):
         p = p or int(rng.integers(1, 4))
         hi = hi or int(rng.choice([2, 3, 6]))
         out.append((name, n, E, rng.integers(0, hi, size=(n, p))))
-    reps = ck.n(2, 8)
+    reps = ck.n(3, 12)
     for r in range(reps):
         for n in (6, 9, 12, 16):
             add("path", n, [(i, i + 1) for i in range(n - 1)])
@@ -368,6 +373,10 @@ def graph_cases(ck):
             perm = rng.permutation(n)
             E = sorted(set((int(min(perm[a], perm[b])), int(max(perm[a], perm[b]))) for a, b in E))
             add("disconnected-sparse", n, E)
+        for n in (8, 12, 16):
+            E = [(int(rng.integers(0, a)), a) for a in range(1, n)]
+            E += [(int(min(a, b)), int(max(a, b))) for a, b in rng.integers(0, n, size=(n // 2, 2)) if a != b]
+            add("random-connected", n, sorted(set(E)))
         # random sparse, possibly connected, up to 40 items (exact only while the scaling fits in 53 bits)
         for n in (10, 20, 30, 40):
             m = int(rng.integers(n // 2, 2 * n))
@@ -376,7 +385,7 @@ def graph_cases(ck):
     return out
 
 
-def dendrogram_oracle(ck, tag, n, E, feat, parents, height, exact, cheapest, cost_is_wss, rep):
+def dendrogram_oracle(ck, tag, n, E, feat, parents, height, exact, cheapest, cost_is_wss, rep, monotone=True):
     """Proper-dendrogram clauses evaluated on the implementation's (parents, height).  Returns the leaf
     sets per node, or None when the structure is broken."""
     comp = components(n, E)
@@ -436,11 +445,46 @@ def dendrogram_oracle(ck, tag, n, E, feat, parents, height, exact, cheapest, cos
                             return leaves
         live -= {a, b}
         live.add(k)
-    for v in range(V):
+    for v in range(V if monotone else 0):
         if F(height[parents[v]]) < F(height[v]):
             ck.fail("%s/height-decreases-child-to-parent" % tag, "height[%d]=%s > height[parent %d]=%s" % (v, height[v], parents[v], height[parents[v]]), rep)
             break
     return leaves
+
+
+def average_link_oracle(ck, n, E, w, parents, height, rep):
+    """average_link_graph: every merge joins the pair of current clusters with the highest average
+    similarity (mean of the edge weights over all pairs of items, missing edge = 0); the node's height
+    is minus that similarity."""
+    V = len(parents)
+    ch = [[] for _ in range(V)]
+    for v in range(V):
+        if parents[v] != v:
+            ch[parents[v]].append(v)
+    leaves = [[v] if v < n else None for v in range(V)]
+    for v in range(n, V):
+        if len(ch[v]) != 2 or any(leaves[c] is None for c in ch[v]):
+            return                       # structure already reported by dendrogram_oracle
+        leaves[v] = leaves[ch[v][0]] + leaves[ch[v][1]]
+
+    def sim(A, B):
+        return F(sum(w.get((min(a, b), max(a, b)), 0) for a in A for b in B), len(A) * len(B))
+    live = set(range(n))
+    for k in range(n, V):
+        a, b = ch[k]
+        s = sim(leaves[a], leaves[b])
+        lv = sorted(live)
+        best = max(sim(leaves[x], leaves[y]) for i, x in enumerate(lv) for y in lv[i + 1:])
+        if abs(float(s) + height[k]) > 1e-9 * (1 + abs(float(s))):
+            ck.fail("average_link_graph/height-is-not-mean-similarity", "height[%d]=%r but the merged clusters %s, %s have mean "
+                    "similarity %s" % (k, height[k], leaves[a], leaves[b], s), rep)
+            return
+        if float(best - s) > 1e-9 * (1 + abs(float(best))):
+            ck.fail("average_link_graph/merge-not-heaviest", "node %d merges %s+%s (similarity %s) but a pair with similarity %s exists"
+                    % (k, leaves[a], leaves[b], s, best), rep)
+            return
+        live -= {a, b}
+        live.add(k)
 
 
 def cut_oracles(ck, tag, t, n, E, parents, height, leaves, rep, terms_add, exact):
@@ -672,12 +716,15 @@ def hierarchical_section(ck):
                         ck.fail("ward_quick/raises/%s" % type(e).__name__, "ward_quick raised %s: %s" % (type(e).__name__, e), rep)
                 if E:
                     try:
-                        W = np.array([1.0 + ((a * 7 + b * 3) % 5) for a, b in E] * 2)
+                        wd = {(a, b): 1 + ((a * 7 + b * 3) % 5) for a, b in E}
+                        W = np.array([float(wd[e]) for e in E] * 2)
                         Ga = WeightedGraph(n, np.array(E + [(b, a) for a, b in E], dtype=np.int_), W)
                         ta = hc.average_link_graph(Ga)
                         pa, ha = [int(v) for v in ta.parents], [float(v) for v in ta.height]
                         ck.count(("al", n, tuple(E)), nontrivial=True, bucket="average_link_graph")
-                        dendrogram_oracle(ck, "average_link_graph", n, E, featl, pa, ha, False, False, False, dict(rep, parents=pa, height=ha))
+                        ra = dict(rep, parents=pa, height=ha, similarities={"%d-%d" % e: v for e, v in wd.items()})
+                        if dendrogram_oracle(ck, "average_link_graph", n, E, featl, pa, ha, False, False, False, ra) is not None:
+                            average_link_oracle(ck, n, E, wd, pa, ha, ra)
                     except Exception as e:  # noqa
                         ck.fail("average_link_graph/raises", "average_link_graph raised %s: %s" % (type(e).__name__, e), rep)
     if ck.build is not None and ck.build.ok:
@@ -685,6 +732,10 @@ def hierarchical_section(ck):
         ck.cov["traces_validated_against_impl"] += len(res)
         for ok, (kind, rep) in zip(res, meta):
             if not ok:
-                ck.fail("%s/model-vs-impl" % kind, "Gallina model and implementation disagree (%s): %s" % (kind, str(rep)[:400]), rep)
+                if kind.endswith("-certificate"):
+                    ck.fail("%s-rejected" % kind, "the proved-sound checker (ward_check / dendro_check, evaluated in Coq) rejects this "
+                            "dendrogram: %s" % str(rep)[:400], rep)
+                else:
+                    ck.fail("%s/model-vs-impl" % kind, "Gallina model and implementation disagree (%s): %s" % (kind, str(rep)[:400]), rep)
     ck.section("hierarchical", graph_cases=len(cases), exact_ward_cases=n_exact, model_cases=len(terms), ward_raised=n_raise,
                int_of_1_element_array_allowed=int1)
